@@ -106,3 +106,111 @@ def check_own_method_tests(repo: Repo, rep, rule: str) -> None:
             visit(fi.node, [])
     if n < 4:
         rep.error(f"{rule}: only {n} nested compilation sites found")
+
+
+def check_guard_mirror(repo: Repo, rep, rule: str) -> None:
+    """The guards of the nested compilations on the serialization side and on the deserialization side are mirror images
+    (pack<->unpack, encoder<->decoder): `class lacks its own method AND (another class OR the requested method is not the one
+    being compiled)`.  A side that loses a conjunct / disjunct compiles too little (a self-referencing class under a format
+    mixin never gets its to_dict_<format> method) or too much; the other side is the reference."""
+    import ast as _ast
+    import re as _re
+
+    from .srcmodel import M_PACK, M_UNPACK
+
+    def guards(mod):
+        out = []
+        for key, fi in sorted(repo.funcs.items(), key=lambda kv: kv[1].node.lineno):
+            if fi.module != mod:
+                continue
+            stack = []
+
+            def walk(stmts, gs):
+                for st in stmts:
+                    if isinstance(st, _ast.If):
+                        walk(st.body, gs + [st.test])
+                        walk(st.orelse, gs)
+                    elif isinstance(st, (_ast.For, _ast.While, _ast.With, _ast.Try)):
+                        walk(getattr(st, "body", []), gs)
+                    elif isinstance(st, _ast.Expr) and isinstance(st.value, _ast.Call) and isinstance(st.value.func, _ast.Attribute) \
+                            and st.value.func.attr in ("add_pack_method", "add_unpack_method"):
+                        own = [g for g in gs if "get_class_that_defines_method(" in _ast.unparse(g)]
+                        out.append((fi, st.lineno, _ast.unparse(own[-1]) if own else "<no own-definition guard>"))
+
+            walk(fi.node.body, [])
+        return out
+
+    def mirror(t: str) -> str:
+        for a, b in (("get_unpack_method_name", "get_pack_method_name"), ("decoder", "encoder"), ("unpack", "pack")):
+            t = t.replace(a, b)
+        return " ".join(t.split())
+
+    gp, gu = guards(M_PACK), guards(M_UNPACK)
+    if len(gp) != len(gu) or len(gp) < 2:
+        rep.undecide(rule, f"{len(gp)} nested compilations on the pack side, {len(gu)} on the unpack side")
+        return
+    for (fp, lp, tp), (fu, lu, tu) in zip(gp, gu):
+        if mirror(tp) == mirror(tu):
+            rep.ok(rule, f"{fp.qualname} / {fu.qualname}: nested-compilation guards are mirror images", None)
+        else:
+            shorter = fp if len(tp) < len(tu) else fu
+            rep.violation(rule, shorter.key, f"{fp.qualname} and {fu.qualname} guard their nested compilation differently",
+                          f"pack side: `{mirror(tp)[:200]}`; unpack side (mirrored): `{mirror(tu)[:200]}` -- the two halves must compile the same set of nested methods "
+                          "(e.g. the format-specific method of a self-referencing class)", loc=f"{shorter.loc.split(':')[0]}:{lp if shorter is fp else lu}")
+
+
+UNPACK_ONLY = ("For spec.annotations", "if isinstance(annotation, Discriminator)")  # the unpack side additionally looks for a Discriminator annotation
+
+
+def check_special_primitive_mirror(repo: Repo, rep, rule: str) -> None:
+    """pack_special_typing_primitive and unpack_special_typing_primitive decide the same cases (Union, Any-like TypeVar,
+    constrained / bound / defaulted TypeVar, NewType, Literal, Self, Required / NotRequired, Unpack, TypeVarTuple,
+    ForwardRef, type alias, ReadOnly) in the same order with the same tests; only the unpack side additionally scans the
+    annotations for a Discriminator.  A branch added, removed, re-ordered or turned into a loop on one side only makes the
+    two directions treat a type differently (a registration honoured by one direction and skipped by the other, a
+    defaulted TypeVar decoded as its default but encoded as the union of its constraints)."""
+    import ast as _ast
+    import difflib
+
+    from .srcmodel import M_PACK, M_UNPACK
+
+    def skel(fn):
+        out = []
+
+        def walk(stmts, d):
+            for st in stmts:
+                if isinstance(st, _ast.If):
+                    out.append("  " * d + "if " + _ast.unparse(st.test))
+                    walk(st.body, d + 1)
+                    if st.orelse:
+                        out.append("  " * d + "else")
+                        walk(st.orelse, d + 1)
+                elif isinstance(st, (_ast.For, _ast.While)):
+                    out.append("  " * d + type(st).__name__ + " " + _ast.unparse(st.iter if isinstance(st, _ast.For) else st.test))
+                    walk(st.body, d + 1)
+                elif isinstance(st, (_ast.With, _ast.Try)):
+                    walk(st.body, d)
+
+        walk(fn.body, 0)
+        return out
+
+    def mirror(t: str) -> str:
+        for a, b in (("get_unpack_method_name", "get_pack_method_name"), ("get_unpack_method_flags", "get_pack_method_flags"), ("decoder", "encoder"),
+                     ("UnpackerRegistry", "PackerRegistry"), ("add_unpack_method", "add_pack_method")):
+            t = t.replace(a, b)
+        return t
+
+    fp, fu = repo.func(M_PACK, "pack_special_typing_primitive"), repo.func(M_UNPACK, "unpack_special_typing_primitive")
+    a = [mirror(x) for x in skel(fp.node)]
+    b = [mirror(x) for x in skel(fu.node) if x.strip() not in UNPACK_ONLY]
+    if len(a) < 25:
+        rep.undecide(rule, f"decision skeleton of pack_special_typing_primitive has only {len(a)} tests")
+        return
+    diff = [l for l in difflib.unified_diff(a, b, lineterm="", n=0) if not l.startswith(("---", "+++", "@@"))]
+    if not diff:
+        rep.ok(rule, f"pack_special_typing_primitive and unpack_special_typing_primitive share one decision skeleton ({len(a)} tests)", None)
+    else:
+        only_p = [l[1:].strip() for l in diff if l.startswith("-")]
+        only_u = [l[1:].strip() for l in diff if l.startswith("+")]
+        rep.violation(rule, fp.key if len(only_p) >= len(only_u) else fu.key, "the two special-typing-primitive handlers decide differently",
+                      f"only on the serialization side: {only_p[:4]}; only on the deserialization side: {only_u[:4]}", loc=fp.loc)
